@@ -272,7 +272,7 @@ fn run_case_inner(case: &Case, viols: &mut Vec<Violation>, sv: &mut Vec<Violatio
         }
         Err(msg) => {
             // linfa-linalg's sort_eig: `partial_cmp(..).expect("NaN values in array")` inside lobpcg's Rayleigh-Ritz step
-            let sig = if msg == "NaN values in array" && k > 1 && k < p { "pca.fit.panic_nan_eigenvalues_inside_lobpcg" } else { "pca.fit.panic" };
+            let sig = if msg == "NaN values in array" { "pca.fit.panic_nan_eigenvalues_inside_lobpcg" } else { "pca.fit.panic" };
             viols.push(Violation::new(sig, format!("fit of a valid {}x{} matrix with embedding size {} panicked: {}", n, p, k, msg), cj()));
             return st;
         }
@@ -356,8 +356,9 @@ fn run_case_inner(case: &Case, viols: &mut Vec<Violation>, sv: &mut Vec<Violatio
             }
         }
     }
+    let orth_failed = orth_bad.is_some();
     if let Some(w) = orth_bad {
-        viols.push(Violation::new(if case.whiten { "pca.components.whitened_rows_wrong_scale_or_not_orthogonal" } else { "pca.components.not_orthonormal" }, w, cj()));
+        sv.push(Violation::new(if case.whiten { "pca.components.whitened_rows_wrong_scale_or_not_orthogonal" } else { "pca.components.not_orthonormal" }, w, cj()));
     }
 
     // ------------------------------------------------------------------ alignment with the eigenvectors (per spectral block)
@@ -445,7 +446,7 @@ fn run_case_inner(case: &Case, viols: &mut Vec<Violation>, sv: &mut Vec<Violatio
                 cj(),
             ));
         } else if rel > TOL {
-            viols.push(Violation::new(
+            sv.push(Violation::new(
                 "pca.components.retained_variance_above_optimum",
                 format!("variance along the {} component directions = {:e} exceeds the sum of the {} largest eigenvalues = {:e} (directions not orthonormal)", kk, kept, kk, best),
                 cj(),
@@ -636,7 +637,10 @@ fn run_case_inner(case: &Case, viols: &mut Vec<Violation>, sv: &mut Vec<Violatio
                     let (i, want, got) = ex.unwrap();
                     let is_cf = case.whiten && worst_cf <= TOL_INTERNAL * cf_scale + 1e-12 * xmax;
                     let sig = if is_cf { "pca.inverse_transform.whitened_model_applies_whitening_scale_again" } else { "pca.inverse_transform.not_orthogonal_projection" };
-                    viols.push(Violation::new(
+                    // with components that are not orthonormal (reported above) z . E cannot be the
+                    // projection: a consequence of that violation, classified together with it
+                    let sink: &mut Vec<Violation> = if orth_failed && !is_cf { &mut *sv } else { &mut *viols };
+                    sink.push(Violation::new(
                         sig,
                         format!(
                             "inverse_transform(transform(X)) row {}: {} ; orthogonal projection of the row onto the component subspace about the mean{}: {} ; the row itself: {}{}",
@@ -781,7 +785,7 @@ fn main() {
     let ctx = Ctx::new("C18", Level::Exploration);
     ctx.maybe_replay(&replay_value);
     ctx.set_rule(
-        "cases = (catalogue matrix, embedding size k, whitening); catalogue = for every n in {6,9,12,20}, p in {1,2,3,5} (n > p) and every variant \
+        "cases = (catalogue matrix, embedding size k, whitening); catalogue = for every n in {6,9,12,20} (quick) / 6..=20 (thorough), p in {1,2,3,5} (n > p) and every variant \
          (1 quick / 4 thorough generator + angle + scale-permutation sets): rank-1 integer lattice ((i+1) g_j mod 23) - 11, exactly isotropic cross-polytope (+-2 e_j, n >= 2p) and its constant-jitter image, \
          axis scales 1:10:100, the same rotated by fixed Givens angles, rank-1 / rank-2 integer factor models + constant jitter, offset 1e3, offset +-1e3 of the rotated one, all columns x 1e-3, all x 1e3, columns x (1e-3, 1, 1e3); \
          k = 1..p with whitening off and on (full oracle), k = 0 and k = p+1 (must be Err), 0 x p data for every k (must be Err). Every member is run. \
@@ -797,7 +801,7 @@ fn main() {
     ctx.assume("with whitening, 'components' are the stored rows (scaled by sqrt(n-1)/sigma); 'directions' are those rows normalised; the component subspace is their span");
 
     // ---------------- enumerate ----------------
-    let ns = [6usize, 9, 12, 20];
+    let ns: Vec<usize> = ctx.pick(vec![6usize, 9, 12, 20], (6usize..=20).collect());
     let ps = [1usize, 2, 3, 5];
     let variants = ctx.pick(1usize, 4usize);
     let mut cases: Vec<Case> = Vec::new();
